@@ -934,6 +934,7 @@ func main() {
 		keepAliveAfterCloseProbe(R)
 		tsoInFlightProbe(R)
 		servedAfterResetProbe(R)
+		neighbourRecordProbe(R)
 	}
 	results := make([]*caseRec, len(jobs))
 	ch := make(chan job)
